@@ -324,7 +324,7 @@ fn last_retry_case(i: u64) -> C08Case {
     C08Case {
         base: Case {
             opts: [o0, OptsSpec::default()],
-            streams: vec![StreamSpec { side: 0, port: 1, pad: vec![], delay: 0, park: None, ends: [EndScript { w: vec![WOp::Write(1)], r: vec![ROp::Read(8)] }, EndScript::default()] }],
+            streams: vec![StreamSpec { side: 0, port: 1, pad: vec![], delay: 0, park: None, cancel: None, ends: [EndScript { w: vec![WOp::Write(1)], r: vec![ROp::Read(8)] }, EndScript::default()] }],
             // the peer rejects the first retries-1 attempts through id collisions: scripted ids collide with B's live stream
             ..Case::default()
         },
